@@ -23,6 +23,15 @@ Oracle relaxations (the property does not say more):
     accepts ``datetime.date`` subclasses;
   * a table with zero rows may or may not remember its column count (and vice versa) - a plain ``[]`` does not either;
   * only loss-less casts are generated (``'5'``->5, ``3.0``->3, ``5``->``'5'``, ISO date strings, 0/1->bool).
+
+Known findings on the pinned tree (one directed case each, every run; classifiers are narrow):
+  * ``cast-skipped-entry-not-in-query-order`` - ``Reader._cast`` pairs the query field with the field at the same
+    position of the *unpermuted* entry schema; keyed only when the value arrived uncast, a cast was needed, the column
+    was moved and the positionally paired entry kind matches the query kind (any other uncast value gets
+    ``value-not-cast-to-declared-kind``).
+  * ``frame-row-view-rounds-big-int-next-to-float-column`` - ``Frame.Rows`` item = ``iloc`` row, widened to float64 by
+    pandas; keyed only when the column view is exact and every differing cell is an int beyond 2**53 returned as
+    ``float(int)``.
 """
 import datetime
 import itertools
@@ -70,26 +79,22 @@ XNAMES = ['x', 'y']
 IMPLS = ['dense', 'frame', 'frame-idx']
 ROUTES = ['direct', 'row', 'table', 'slicer']
 KNOWN_CAST_KEY = 'cast-skipped-entry-not-in-query-order'
+KNOWN_WIDEN_KEY = 'frame-row-view-rounds-big-int-next-to-float-column'
 
 
 def shards(tier):
-    return 4 if tier == 'quick' else 16
+    return 8 if tier == 'quick' else 16
 
 
 def floors(tier):
-    scale = 1 if tier == 'quick' else 20
-    return {
-        'reader_checked': 2500 * scale,
-        'perm_checked': 400 * scale,
-        'superset_checked': 1200 * scale,
-        'cast_cells_checked': 3000 * scale,
-        'missing_checked': 900 * scale,
-        'dupes_checked': 40,
-        'driver_checked': 1200 * scale,
-        'slicer_checked': 500 * scale,
-        'take_checked': 15000,
-        'view_checked': 15000,
-    }
+    """About 70 % of what the unchanged tree reaches (the enumerated part is deterministic, the rest seeded)."""
+    if tier == 'quick':
+        return {'reader_checked': 2400, 'perm_checked': 550, 'superset_checked': 1800, 'cast_cells_checked': 12000,
+                'missing_checked': 2500, 'dupes_checked': 250, 'driver_checked': 3500, 'slicer_checked': 1200,
+                'take_checked': 15000, 'view_checked': 26000, 'view_items_checked': 2500}
+    return {'reader_checked': 70000, 'perm_checked': 6000, 'superset_checked': 62000, 'cast_cells_checked': 450000,
+            'missing_checked': 21000, 'dupes_checked': 2200, 'driver_checked': 65000, 'slicer_checked': 29000,
+            'take_checked': 75000, 'view_checked': 90000, 'view_items_checked': 18000}
 
 
 # ---------------------------------------------------------------- value coding (witnesses are JSON)
@@ -233,7 +238,7 @@ def gen_extra(rng, kind, slot):
 
 def arrangements(nquery, rng, sample):
     """Yield (tokens, exhaustive?) - tokens are query column indices or 'x'/'y' extras in entry order."""
-    for missing in range(0, min(2, nquery - 1) + 1 if nquery > 1 else 1):
+    for missing in range(0, min(2, nquery) + 1):
         for dropped in itertools.combinations(range(nquery), missing):
             kept = [i for i in range(nquery) if i not in dropped]
             for extras in range(0, 3):
@@ -318,7 +323,7 @@ class Lib:
     def schema(self, columns):
         return self.dsl.Schema.from_fields(*(self.dsl.Field(self.kinds[k], name=n) for n, k in columns))
 
-    def tabular(self, impl, rows, names, rng_seed=0):
+    def tabular(self, impl, rows, names):
         if impl == 'dense':
             return self.layout.Dense.from_rows(rows)
         if impl == 'dense-cols':
@@ -326,10 +331,7 @@ class Lib:
         frame = self.pandas.DataFrame({i: [row[i] for row in rows] for i in range(len(names))})
         frame.columns = list(names)
         if impl == 'frame-idx':
-            count = len(rows)
-            frame.index = [(i * 7 + 3 + rng_seed) % (count + 5) + 10 * (i % 2) for i in range(count)]
-            if len(set(frame.index)) != count:
-                frame.index = [count - i + 100 for i in range(count)]
+            frame.index = [(len(rows) - i) * 2 + 5 for i in range(len(rows))]  # unique, descending, not 0..n-1
         return self.layout.Frame(frame)
 
 
@@ -352,10 +354,8 @@ def classify_cell(case, qindex, observed, expected, raw, srcpos):
     """Mechanism key for a wrong cell of an accepted entry."""
     qkind = case['q'][qindex][1]
     ekinds = [k for _, k in case['entry']]
-    observed = unwrap(observed)
-    if cell_equal(observed, raw) and not cell_equal(raw, expected) or (
-            category(observed) == category(raw) and category(raw) != category(expected) and observed == raw):
-        # the client's value arrived uncast
+    del expected
+    if cell_equal(observed, raw):  # the client's value arrived uncast
         positional = ekinds[qindex] if qindex < len(ekinds) else None
         needed = not kind_matches(qkind, ekinds[srcpos])
         if needed and srcpos != qindex and positional is not None and kind_matches(qkind, positional):
@@ -382,7 +382,7 @@ def check_reader(ctx, lib, case):
         ctx.shape(signature)
     statement, slicer = statement_of(lib, case)
     try:
-        entry = lib.layout.Entry(lib.schema(case['entry']), lib.tabular(case['impl'], rows, enames, len(rows)))
+        entry = lib.layout.Entry(lib.schema(case['entry']), lib.tabular(case['impl'], rows, enames))
     except lib.dsl.GrammarError:
         if len(set(enames)) == len(enames):
             raise
@@ -504,7 +504,7 @@ def check_slicer(ctx, lib, case):
     rows = [[dec(v) for v in row] for row in case['rows']]
     names = [f'c{i}' for i in range(len(rows[0]))]
     ctx.shape(('slicer', len(rows), len(names), case['impl'], case['features'], case['labels']))
-    table = lib.tabular(case['impl'], rows, names, 1)
+    table = lib.tabular(case['impl'], rows, names)
     scalar = isinstance(case['labels'], int)
     try:
         left, right = lib.extract.Slicer.builder(case['features'], case['labels'])().apply(table)
@@ -537,8 +537,9 @@ def gen_matrix(rng, nrows, ncols):
     return [[enc(make()) for make in makers] for _ in range(nrows)]
 
 
-def view_problem(ctx, view, expected, other_len):
-    """Compare one row/column view with the expected list of lists; returns a mechanism suffix or None."""
+def view_problem(ctx, view, expected, full):
+    """Compare one row/column view with the expected list of lists; returns a mechanism suffix or None.
+    ``full`` adds item and slice access to len + iteration (Frame views cost one ``iloc`` per item)."""
     ctx.count('view_checked')
     if not expected or not expected[0]:
         # a degenerate table: the emptied axis may or may not remember the extent of the other one
@@ -551,6 +552,9 @@ def view_problem(ctx, view, expected, other_len):
         return 'len'
     if not matrix_equal(lists(view), expected):
         return 'iteration'
+    if not full:
+        return None
+    ctx.count('view_items_checked')
     for i, want in enumerate(expected):
         if not matrix_equal([[unwrap(v) for v in view[i]]], [want]):
             return 'item'
@@ -577,37 +581,77 @@ def expect_ops(rows, width, ops):
     return rows, width
 
 
+def probe_tabular(ctx, lib, impl, rows, names, ops, full):
+    """None if the table after ``ops`` agrees with the list semantics, else (problem, description)."""
+    want_rows, width = expect_ops(rows, len(rows[0]), ops)
+    try:
+        table = apply_ops(lib.tabular(impl, rows, names), ops)
+        for where, view, want in (('to_rows', table.to_rows, want_rows),
+                                  ('to_columns', table.to_columns, transpose(want_rows, width))):
+            problem = view_problem(ctx, view(), want, full)
+            if problem is not None:
+                return f'{where}-{problem}-differs', f'{where} differs from the expected rows {want_rows}'
+    except Exception as err:  # pylint: disable=broad-except
+        return f'raises-{type(err).__name__}', f'raised {err!r}'
+    return None
+
+
+def widened_only(lib, case, rows, names, ops):
+    """The only disagreement of the row view: integers beyond 2**53 in an all-numeric frame come back as the nearest
+    float (pandas widens an int64 + float64 row to float64) while the column view is exact."""
+    want_rows, width = expect_ops(rows, len(rows[0]), ops)
+    table = apply_ops(lib.tabular(case['impl'], rows, names), ops)
+    seen = lists(table.to_rows())
+    if len(seen) != len(want_rows) or not matrix_equal(lists(table.to_columns()), transpose(want_rows, width)):
+        return False
+    hit = False
+    for got, want in zip(seen, want_rows):
+        if len(got) != len(want) or not any(isinstance(v, float) for v in want):
+            return False
+        for observed, expected in zip(got, want):
+            if cell_equal(observed, expected):
+                continue
+            if (isinstance(expected, int) and not isinstance(expected, bool) and abs(expected) > 2 ** 53
+                    and isinstance(observed, float) and observed == float(expected)):
+                hit = True
+                continue
+            return False
+    return hit
+
+
 def check_tabular(ctx, lib, case):
     """case: {'kind': 'tabular', 'rows', 'impl', 'ops': [[axis, [idx...]], ...]} - ops may be empty (plain views)."""
     ctx.count('evaluations')
     ctx.count('take_checked', len(case['ops']))
     rows = [[dec(v) for v in row] for row in case['rows']]
     nrows, ncols = len(rows), len(rows[0])
-    names = [f'c{i}' for i in range(ncols)] if case['impl'] != 'frame-idx' else [(i * 3 + 1) % ncols if ncols not in (3,) else (i + 1) % ncols for i in range(ncols)]
-    if len(set(names)) != ncols:
-        names = list(reversed(range(ncols)))
+    # integer column labels that disagree with the positions for the shuffled frame
+    names = [f'c{i}' for i in range(ncols)] if case['impl'] != 'frame-idx' else [(i + 1) % ncols for i in range(ncols)]
     ops = [(axis, list(indices)) for axis, indices in case['ops']]
     trivial = all(indices == list(range(nrows if axis == 'rows' else ncols)) for axis, indices in ops)
     if not trivial:
         ctx.shape(('tabular', nrows, ncols, case['impl'], ops))
-    try:
-        table = apply_ops(lib.tabular(case['impl'], rows, names, 2), ops)
-        want_rows, width = expect_ops(rows, ncols, ops)
-        problem = view_problem(ctx, table.to_rows(), want_rows, width)
-        where = 'to_rows'
-        if problem is None:
-            where = 'to_columns'
-            problem = view_problem(ctx, table.to_columns(), transpose(want_rows, width), len(want_rows))
-    except Exception as err:  # pylint: disable=broad-except
-        kind = 'views' if not ops else '-then-'.join(f'take_{a}' for a, _ in ops)
-        empty = '-empty-selection' if any(not i for _, i in ops) else ''
-        ctx.violation(f'tabular-{kind}{empty}-raises-{type(err).__name__}-{case["impl"].split("-")[0]}',
-                      f'{case["impl"]} {nrows}x{ncols} ops {ops} raised {err!r}', case)
+    full = sum(len(i) for _, i in ops) <= 2 or case.get('full', False)
+    if probe_tabular(ctx, lib, case['impl'], rows, names, ops, full) is None:
         return
-    if problem is not None:
-        kind = 'views' if not ops else '-then-'.join(f'take_{a}' for a, _ in ops)
-        ctx.violation(f'tabular-{kind}-{where}-{problem}-differs-{case["impl"].split("-")[0]}',
-                      f'{case["impl"]} of {rows} after {ops}: {where} differs from {want_rows}', case)
+    # mechanism = the first operation of the chain after which the table disagrees (structural, not the whole chain)
+    for size in range(len(ops) + 1):
+        found = probe_tabular(ctx, lib, case['impl'], rows, names, ops[:size], True)
+        if found is not None:
+            break
+    if case['impl'].startswith('frame') and found[0].startswith('to_rows') and widened_only(lib, case, rows, names, ops[:size]):
+        ctx.violation(KNOWN_WIDEN_KEY, f'{case["impl"]} of {rows} after {ops[:size]}: the row view returns integers beyond '
+                                       f'2**53 as rounded floats (column view is exact)', case)
+        return
+    operation = 'views' if size == 0 else f'take_{ops[size - 1][0]}'
+    flavour = ''
+    if size:
+        indices = ops[size - 1][1]
+        before_rows, before_width = expect_ops(rows, ncols, ops[:size - 1])
+        flavour = ('-empty-selection' if not indices else '-of-emptied-table' if not before_rows or not before_width
+                   else '')
+    ctx.violation(f'tabular-{case["impl"].split("-")[0]}-{operation}{flavour}-{found[0]}',
+                  f'{case["impl"]} of {rows} after {ops[:size]}: {found[1]}', case)
 
 
 def index_lists(extent, longest):
@@ -622,21 +666,26 @@ DIRECTED = {
 }
 
 
+DIRECTED_WIDEN = {'kind': 'tabular', 'rows': [[2 ** 62 + 1, 0.5]], 'impl': 'frame', 'ops': []}
+
+
 def run(ctx):
     lib = Lib()
     rng = ctx.rng('gen', ctx.shard)
     if ctx.shard == 0:
         check_reader(ctx, lib, dict(DIRECTED))  # the suspected _cast defect (DESIGN section 6), every run
         check_reader(ctx, lib, dict(DIRECTED, entry=[['x', 'int'], ['a', 'int'], ['b', 'str']], rows=[[0, 7, '5']]))
+        check_tabular(ctx, lib, dict(DIRECTED_WIDEN))  # 64-bit identifier next to a float column, every run
     # -------- reader: enumerated arrangements, several kind / data draws each
-    reps = ctx.pick(1, 24)
     index = 0
     for nquery in range(1, 6):
-        for tokens in arrangements(nquery, ctx.rng('arr', nquery), ctx.pick(40, 400)):
+        for tokens in arrangements(nquery, ctx.rng('arr', nquery), ctx.pick(60, 400)):
             index += 1
             if not ctx.mine(index):
                 continue
-            for _ in range(reps):
+            complete = all(i in tokens for i in range(nquery))
+            # several kind / data / implementation / route draws per arrangement
+            for _ in range(ctx.pick(5, 60) if complete else ctx.pick(1, 6)):
                 check_reader(ctx, lib, build_case(rng, nquery, tokens))
     ctx.note_max('arrangements_enumerated', index)
     for _ in range(ctx.pick(40, 200)):
@@ -661,7 +710,7 @@ def run(ctx):
         for axis, extent in (('rows', nrows), ('columns', ncols)):
             for indices in index_lists(extent, 4):
                 check_tabular(ctx, lib, {'kind': 'tabular', 'rows': rows, 'impl': impl, 'ops': [[axis, indices]]})
-    for _ in range(ctx.pick(300, 6000)):
+    for _ in range(ctx.pick(300, 3000)):
         nrows, ncols = rng.randint(1, ctx.pick(4, 6)), rng.randint(1, ctx.pick(4, 6))
         ops = []
         rcount, ccount = nrows, ncols
@@ -677,7 +726,7 @@ def run(ctx):
             else:
                 ccount = len(indices)
         check_tabular(ctx, lib, {'kind': 'tabular', 'rows': gen_matrix(rng, nrows, ncols),
-                                 'impl': rng.choice(CONSTRUCTIONS), 'ops': ops})
+                                 'impl': rng.choice(CONSTRUCTIONS), 'ops': ops, 'full': rng.random() < 0.25})
     ctx.sample({'tabular': {'rows': gen_matrix(rng, 2, 3), 'impl': 'frame-idx', 'ops': [['columns', [2, 2, 0]], ['rows', []]]}})
 
 
